@@ -273,7 +273,9 @@ func runC15(env *core.Env, ci any) {
 			case "slow-pp-then-slow-hello":
 				// inside every limit: the PROXY header takes half of its limit, the ClientHello then three quarters of the
 				// handshake limit. Each phase has its own limit, so this client must be served.
-				time.Sleep(ppTO / 2)
+				// (a few milliseconds apart per peer: two handshakes started by timers of the same simulated instant would
+				// draw from the pinned entropy stream in an order the runtime does not fix)
+				time.Sleep(ppTO/2 + time.Duration(i)*3*time.Millisecond)
 				raw.Write(ppHeader)
 				time.Sleep(tlsTO * 3 / 4)
 				tc := tls.Client(raw, &tls.Config{RootCAs: ca.Pool(), ServerName: "proxy.example"})
